@@ -762,10 +762,21 @@ func (c11) Exec(c string) (string, []Fail) {
 				if o.circ && !short && c11MinLen(lows) > 0 {
 					stat("rotation-checked")
 					nrot := 3
+					maxL := 0
+					for _, t := range lows {
+						maxL = max(maxL, len(t))
+					}
+					every := false // every origin: thorough tier, one case out of 8 (and the short corpus cases)
 					if c11Tier == "thorough" {
-						nrot = 0
-						for _, t := range lows {
-							nrot = max(nrot, len(t)-1)
+						h := 0
+						for k := 0; k < len(c); k++ {
+							h = (h*31 + int(c[k])) & 0xffff
+						}
+						every = h%8 == 0 || len(c) < 260
+						nrot = 12
+						if every {
+							nrot = maxL - 1
+							stat("rotation-every-origin")
 						}
 					}
 					for q := 0; q < nrot; q++ {
@@ -773,8 +784,10 @@ func (c11) Exec(c string) (string, []Fail) {
 						for i, t := range lows {
 							L := len(t)
 							var r int
-							if c11Tier == "thorough" {
+							if every {
 								r = 1 + q%max(L-1, 1)
+							} else if c11Tier == "thorough" {
+								r = 1 + (q*(L-1))/12 + (i % 3)
 							} else {
 								switch (q + i) % 3 {
 								case 0:
@@ -1553,6 +1566,61 @@ func (c11) Gen(rng *rand.Rand, tier string, emit func(string)) {
 		}
 		o.ext = []int{-1, -1, -1, 0, 1, 2, 3, 5, 10, 30}[rng.Intn(10)]
 		o.full = rng.Intn(3) == 0
+		emit(c11Line(o, tpls))
+	}
+	// the search window of the second primer: `last direct hit end - first direct hit start + max length + reverse.Len()`
+	// (+ MAX_PAT_LEN inside FindAllIndex) — primers of unequal length, the complemented site of the LAST direct hit as far
+	// as the maximal length allows (gap in max-|lf-lr| .. max), in either orientation, linear templates
+	nw := 150
+	if tier == "thorough" {
+		nw = 400
+	}
+	for k := 0; k < nw; k++ {
+		var o c11Opt
+		fl, rl := 2+rng.Intn(8), 2+rng.Intn(8)
+		switch rng.Intn(4) {
+		case 0, 1:
+			fl = rl + 1 + rng.Intn(24)
+		case 2:
+			rl = fl + 1 + rng.Intn(24)
+		}
+		o.fwd, o.rev = c11RandPrimer(rng, fl, 0), c11RandPrimer(rng, rl, 0)
+		o.ef = rng.Intn(2)
+		o.er = rng.Intn(2)
+		o.ext = []int{-1, -1, 0, 2, 40}[rng.Intn(5)]
+		o.full = rng.Intn(4) == 0
+		F, _ := c11Primer(o.fwd)
+		R, _ := c11Primer(o.rev)
+		g := 1 + rng.Intn(30)
+		d := fl - rl
+		if d < 0 {
+			d = -d
+		}
+		o.max = g + rng.Intn(d+2)
+		if rng.Intn(8) == 0 {
+			o.max = max(g-1, 1)
+		}
+		if rng.Intn(3) == 0 {
+			o.min = g - rng.Intn(2)
+		}
+		nt := 1 + rng.Intn(2)
+		var tpls [][]byte
+		for q := 0; q < nt; q++ {
+			D, C := F, c11RcSets(R)
+			if rng.Intn(3) != 0 {
+				D, C = R, c11RcSets(F)
+			}
+			span := len(D) + g + len(C)
+			L := span + rng.Intn(120)
+			t := c11RandSeq(rng, L, "acgt")
+			if rng.Intn(2) == 0 { // an earlier direct hit: the window starts there
+				c11Plant(t, rng.Intn(max(L-span, 1)), c11Instance(rng, D, 0), false)
+			}
+			i := L - span - rng.Intn(min(L-span+1, 4))
+			c11Plant(t, i, c11Instance(rng, D, rng.Intn(2)), false)
+			c11Plant(t, i+len(D)+g, c11Instance(rng, C, rng.Intn(2)), false)
+			tpls = append(tpls, t)
+		}
 		emit(c11Line(o, tpls))
 	}
 	nf := 6
